@@ -23,6 +23,21 @@ pub struct Atom {
     pub field: u8, // 0 = a, 1 = b
     pub op: u8,    // 0 == 1 != 2 < 3 <= 4 > 5 >=
     pub lit: i64,
+    /// the comparison is negated: `!(T.a > 1)`
+    #[serde(default)]
+    pub neg: bool,
+}
+
+/// a field value that stands for the float NaN (a legal number that compares false with everything, so that
+/// `!(T.a > 1)` and `T.a <= 1` are different conditions)
+const NAN: i64 = i64::MIN + 7;
+
+fn fv(v: i64) -> FactValue {
+    if v == NAN {
+        FactValue::Float(f64::NAN)
+    } else {
+        FactValue::Integer(v)
+    }
 }
 
 #[derive(Clone, Debug, Serialize, Deserialize, PartialEq)]
@@ -83,14 +98,20 @@ fn field_str(f: u8) -> &'static str {
 
 fn atom_holds(at: &Atom, a: i64, b: i64) -> bool {
     let v = if at.field % 2 == 0 { a } else { b };
-    match at.op % 6 {
-        0 => v == at.lit,
-        1 => v != at.lit,
-        2 => v < at.lit,
-        3 => v <= at.lit,
-        4 => v > at.lit,
-        _ => v >= at.lit,
-    }
+    // NaN is unequal to everything and neither below nor above anything
+    let plain = if v == NAN {
+        at.op % 6 == 1
+    } else {
+        match at.op % 6 {
+            0 => v == at.lit,
+            1 => v != at.lit,
+            2 => v < at.lit,
+            3 => v <= at.lit,
+            4 => v > at.lit,
+            _ => v >= at.lit,
+        }
+    };
+    plain != at.neg
 }
 
 fn cond_holds(r: &RRule, a: i64, b: i64) -> bool {
@@ -102,7 +123,7 @@ fn grl_of(i: usize, r: &RRule) -> String {
     let cond = r
         .cond
         .iter()
-        .map(|conj| conj.iter().map(|at| format!("{ty}.{} {} {}", field_str(at.field), op_str(at.op), at.lit)).collect::<Vec<_>>().join(" && "))
+        .map(|conj| conj.iter().map(|at| if at.neg { format!("!({ty}.{} {} {})", field_str(at.field), op_str(at.op), at.lit) } else { format!("{ty}.{} {} {}", field_str(at.field), op_str(at.op), at.lit) }).collect::<Vec<_>>().join(" && "))
         .collect::<Vec<_>>()
         .join(" || ");
     let action = match &r.action {
@@ -147,6 +168,7 @@ fn viol(clause: &str, site: &str, sig: &str, msg: String, step: usize) -> Violat
 fn int_of(v: Option<&FactValue>) -> Option<i64> {
     match v {
         Some(FactValue::Integer(i)) => Some(*i),
+        Some(FactValue::Float(f)) if f.is_nan() => Some(NAN),
         Some(FactValue::Float(f)) if f.fract() == 0.0 => Some(*f as i64),
         _ => None,
     }
@@ -223,8 +245,8 @@ fn run_pass(t: &ReteTrace, obs: &mut Obs, primary: bool) -> Result<(), Violation
             ROp::Insert { ty, a, b } => {
                 let uid = 1000 + facts.len() as i64;
                 let mut d = TypedFacts::new();
-                d.set("a", *a);
-                d.set("b", *b);
+                d.set("a", fv(*a));
+                d.set("b", fv(*b));
                 d.set("uid", uid);
                 let h = engine.insert(tname(*ty).to_string(), d);
                 if let Some(mx) = ids.iter().max() {
@@ -241,8 +263,8 @@ fn run_pass(t: &ReteTrace, obs: &mut Obs, primary: bool) -> Result<(), Violation
                 }
                 let k = h % facts.len();
                 let mut d = TypedFacts::new();
-                d.set("a", *a);
-                d.set("b", *b);
+                d.set("a", fv(*a));
+                d.set("b", fv(*b));
                 d.set("uid", facts[k].uid);
                 let was_sat: Vec<bool> = t.rules.iter().map(|r| r.ty == facts[k].ty && cond_holds(r, facts[k].a, facts[k].b)).collect();
                 let r = engine.update(FactHandle::new(ids[k]), d);
@@ -550,6 +572,10 @@ impl World for ReteWorld {
         // stamp, or around 10^12 (still exact as f64) — comparisons that go through floats lose nothing near zero
         let base: i64 = *rng.pick(&[0i64, 0, 0, 0, 1_700_000_000, 1_000_000_000_000]);
         let simple = rng.chance(1, 2); // no-op actions, all no-loop: fire.complete territory
+        // one run in four: some comparisons are negated (`!(T.a > 1)`), and one run in two of those lets fields
+        // hold NaN — the value for which a negated comparison and the "complementary" one differ
+        let negs = rng.chance(1, 4);
+        let nans = negs && rng.chance(1, 2);
         let nrules = 1 + rng.usize(4);
         let sal = [0i32, *rng.pick(&[0i32, 5]), *rng.pick(&[-3i32, 10])];
         let rules: Vec<RRule> = (0..nrules)
@@ -557,11 +583,11 @@ impl World for ReteWorld {
                 // 1-2 disjuncts of 1-2 atoms; one rule in six is a longer chain of alternatives instead:
                 // 3-4 single equality tests (`T.a == 1 || T.a == 2 || T.b == 3`)
                 let cond: Vec<Vec<Atom>> = if rng.chance(1, 6) {
-                    (0..3 + rng.usize(2)).map(|_| vec![Atom { field: rng.below(2) as u8, op: 0, lit: (base + rng.range(-2, 3)) }]).collect()
+                    (0..3 + rng.usize(2)).map(|_| vec![Atom { field: rng.below(2) as u8, op: 0, lit: (base + rng.range(-2, 3)), neg: false }]).collect()
                 } else {
                     let nconj = 1 + rng.usize(2);
                     (0..nconj)
-                        .map(|_| (0..1 + rng.usize(2)).map(|_| Atom { field: rng.below(2) as u8, op: rng.below(6) as u8, lit: (base + rng.range(-2, 3)) }).collect())
+                        .map(|_| (0..1 + rng.usize(2)).map(|_| Atom { field: rng.below(2) as u8, op: rng.below(6) as u8, lit: (base + rng.range(-2, 3)), neg: negs && rng.chance(1, 3) }).collect())
                         .collect()
                 };
                 RRule {
@@ -606,6 +632,18 @@ impl World for ReteWorld {
             });
         }
         ops.push(ROp::FireAll);
+        if nans {
+            for o in ops.iter_mut() {
+                if let ROp::Insert { a, b, .. } | ROp::Update { a, b, .. } = o {
+                    if rng.chance(1, 4) {
+                        *a = NAN;
+                    }
+                    if rng.chance(1, 6) {
+                        *b = NAN;
+                    }
+                }
+            }
+        }
         let mono_ticks = match rng.usize(3) {
             0 => vec![0],
             1 => vec![0, 0, 0, 7],
